@@ -13,7 +13,9 @@
 
    Memory.  Maps are reference types and pointers alias, but the values the
    harness builds are trees (no map is reachable twice), so an in-place update
-   of a nested map is the functional update of the enclosing tree.  The one
+   of a nested map is the functional update of the enclosing tree (histories
+   in which nested maps ARE shared between trees and holders run on the store
+   of map objects of Model/StrAnyMapHeap.v).  The one
    place where the real code relies on storing back is kept: SetWithBuffer
    re-assigns buf_[path[0]] = x after the recursive call - for an existing
    nested map that is the same (already mutated) map, for a freshly made
